@@ -249,6 +249,23 @@ def _check_klatt(case):
         missing = [k for k in want if k not in [x[0] for x in d0]]
         if missing:
             viols.append(Viol("open-hierarchy", f"{tag}: tiers missing after open: {missing[:3]}"))
+    if not mods:
+        # the same text in the other byte encodings Praat writes: UTF-16 with a byte-order mark in either byte order, and CR LF line ends
+        import codecs
+        with open(fn, encoding="utf-8", newline="") as fd:
+            text = fd.read()
+        for how, raw in (("UTF-16 little-endian with BOM", codecs.BOM_UTF16_LE + text.encode("utf-16-le")),
+                         ("UTF-16 big-endian with BOM", codecs.BOM_UTF16_BE + text.encode("utf-16-be")),
+                         ("UTF-8 with CR LF line ends", text.replace("\n", "\r\n").encode("utf-8"))):
+            fn2 = os.path.join(scratch_dir(), "c19-enc.KlattGrid")
+            with open(fn2, "wb") as fd:
+                fd.write(raw)
+            st2, kg2_, _ = call(klattgrid.openKlattgrid, fn2)
+            n += 1
+            if st2 == "exc":
+                viols.append(Viol("open-raised:" + type(kg2_).__name__, f"{tag}: the same KlattGrid text stored as {how}: {kg2_!r}"))
+            elif diff(d0, dump(kg2_), f"stored as {how}"):
+                viols.append(Viol("open-encoding", f"{tag}: " + diff(d0, dump(kg2_), f"stored as {how}")))
     exp = [(k, lo, hi, list(E)) for k, lo, hi, E in d0]
     if mods:
         call(kg.save, out)  # the same live object is saved BEFORE it is modified, too (save - modify - save)
